@@ -12,6 +12,7 @@ import (
 	"fmt"
 	"math"
 	"os"
+	"runtime"
 	"strconv"
 )
 
@@ -170,10 +171,17 @@ func Tier() int      { return tier }
 func Symbolic() bool { return false }
 
 // Protect / Writes: the engine's write monitor; no native equivalent.
-func Protect(roots ...any) int      { return 0 }
+func Protect(roots ...any) int       { return 0 }
 func Writes(h int, netOnly bool) int { return 0 }
-func Depth() int                    { return 0 }
-func ForkMaps(on bool)              {}
+
+// Depth is the current call depth (interpreter frames under the engine,
+// goroutine stack frames natively).
+func Depth() int {
+	var pcs [4096]uintptr
+	return runtime.Callers(0, pcs[:])
+}
+
+func ForkMaps(on bool) {}
 
 func IsConcrete(v any) bool { return true }
 
